@@ -118,7 +118,13 @@ func init() {
 					break
 				}
 			}
-			c.Violate("C07:runtime-error:"+cls+":"+normalizeFail(basenames(stripIds(line))),
+			sigTail := normalizeFail(basenames(stripIds(line)))
+			if strings.Contains(out, "panic:") {
+				if _, site := vf.CrashSite(out); site != "" {
+					cls, sigTail = "panic", site
+				}
+			}
+			c.Violate("C07:runtime-error:"+cls+":"+sigTail,
 				fmt.Sprintf("compiler-accepted program fails at run time under --strict=error with conforming stage outputs: %s", truncate(line, 400)),
 				map[string]interface{}{"program_seed": res.fc.Seed, "mro": res.prog.Print(), "mrp_output": tail(out, 3000)})
 		} else {
